@@ -754,7 +754,7 @@ func c10pushes(p *Program, r *Report, matcher *ssa.Function) {
 	if n == 0 {
 		r.Unresolved("C10.pushes", "loops over txscript.PushedData results below "+FnName(matcher))
 	}
-	r.Floor("C10.pushes", 2)
+	r.Floor("C10.pushes", 1)
 }
 
 func condKeySet(cs []Cond) map[string]bool {
